@@ -2,11 +2,12 @@
 
 M    : MC_ScaleGen - the oracle ValidPyramid evaluated by TLC on the
        TRANSCRIPTION of the generator (ScaleGen.tla design layer) over a bounded
-       input set; the violating classes (clauses x delays x target) are reported
-       as design findings.  Non-vacuity / switches: DesignValid holds on isotropic
-       inputs and FAILS on anisotropic ones; StopRule "plusDelay" makes
-       LastScaleFits hold (code position "minusDelay" fails); ChunkRule
-       "delayAware" makes every pair assemblable (code position fails).
+       input set.  With every deviation switch in the conforming position
+       (StopRule plusDelay, ChunkRule delayAware, ReduceRule loop, KeyRule
+       fallback, AssignRule strict = the code at HEAD) DesignValid is an
+       invariant of the whole input set (all clauses, no raise); each
+       deviating position must FAIL its clause (minusDelay: LastScaleFits,
+       code: PairAssemblable, single: KeysDistinct, once: Raised).
 S->C : (verdict) points of the SAME input product (axes exported by
        Gen_ScaleGen; classes found by the MC run are all hit) are fed to the REAL
        fill_scales_for_dyadic_pyramid and to the generate-scales-info command;
@@ -66,26 +67,34 @@ def class_summary(recs):
     return out
 
 
+SWITCHES = {"StopRule": "plusDelay", "ChunkRule": "delayAware", "ReduceRule": "loop",
+            "KeyRule": "fallback", "AssignRule": "strict"}
+# one must-fail configuration per deviating switch position (non-vacuity)
+MUST_FAIL = (("MC_ScaleGen_minus", "StopRule=minusDelay", "LastFits"),
+             ("MC_ScaleGen_pairs", "ChunkRule=code", "PairsOk"),
+             ("MC_ScaleGen_keys", "KeyRule=single", "KeysOk"),
+             ("MC_ScaleGen_once", "ReduceRule=once", "NoRaise"))
+
+
 def run_mc(ctx):
+    # every switch in the conforming position: DesignValid (ValidPyramid on the
+    # transcription, no raise) is a real invariant of the whole input space
     r = ctx.mc("MC_ScaleGen", ctx.pick("MC_ScaleGen_quick", "MC_ScaleGen"), workers=16)
     recs = tlc.records(r["out"], "CLS")
     ctx.notes["design_classes"] = class_summary(recs)
     ctx.notes["design_class_count"] = len(recs)
+    ctx.notes["switches"] = dict(SWITCHES)
     classes = [json.loads(x[1]) for x in recs]
-    # switches / non-vacuity
     sw = {}
-    for cfg, must_hold in (("MC_ScaleGen_iso", True), ("MC_ScaleGen_valid", False),
-                           ("MC_ScaleGen_minus", False), ("MC_ScaleGen_plus", True),
-                           ("MC_ScaleGen_pairs", False), ("MC_ScaleGen_aware", True)):
-        if ctx.quick and cfg in ("MC_ScaleGen_plus", "MC_ScaleGen_aware"):
-            continue        # repaired-design proofs are part of the thorough tier
+    for cfg, position, inv in MUST_FAIL:
         res = tlc.model_check("MC_ScaleGen", cfg, workers=16)
-        sw[cfg] = {"ok": res["ok"], "violated": res["invariant_violated"],
+        sw[cfg] = {"position": position, "ok": res["ok"], "violated": res["invariant_violated"],
                    "distinct": res.get("distinct", 0), "wall_s": round(res["wall_s"], 1)}
         ctx.cov["states"] += res.get("distinct", 0)
         ctx.cov["transitions"] += res.get("generated", 0)
-        if res["ok"] != must_hold:
-            raise tlc.MachineryError("%s expected to %s" % (cfg, "hold" if must_hold else "FAIL (vacuous model)"))
+        if res["ok"] or inv not in res["invariant_violated"]:
+            raise tlc.MachineryError("%s (%s) expected to violate %s (vacuous model)"
+                                     % (cfg, position, inv))
     ctx.notes["switch_runs"] = sw
     return classes
 
